@@ -264,7 +264,7 @@ func (m *Model) mapCard(h *Heap, mt *types.Map, mp string) string {
 		m.vc.Def(fmt.Sprintf("(forall ((d (Array %s Bool)) (k %s)) (! (= (%s (store d k true)) (ite (select d k) (%s d) (+ (%s d) 1))) :pattern ((%s (store d k true)))))", ks, ks, fn, fn, fn, fn))
 		m.vc.Def(fmt.Sprintf("(forall ((d (Array %s Bool)) (k %s)) (! (= (%s (store d k false)) (ite (select d k) (- (%s d) 1) (%s d))) :pattern ((%s (store d k false)))))", ks, ks, fn, fn, fn, fn))
 	}
-	return App(fn, m.mapDom(h, mt, mp))
+	return Ite(Eq(mp, "0"), "0", App(fn, m.mapDom(h, mt, mp)))
 }
 
 // ---- allocation ----
